@@ -49,3 +49,59 @@ Proof.
   exists [Plain [LT]], [FromArg 0 (fun s => s)]. split; [repeat constructor|].
   split; [repeat constructor; intros s H; exact H|]. cbn. unfold Clean. cbn. discriminate.
 Qed.
+
+(* ---------------------------------------------------------------- non-string arguments *)
+Definition cMkClean (a : carg) : Prop := match a with CStr v => MkClean v | CObj _ => True end.
+
+Lemma Clean_c_esc_str : forall a, cMkClean a -> Clean (c_esc_str a).
+Proof. intros [v|t] H; cbn; [now apply Clean_esc_str|apply Clean_escape]. Qed.
+
+(* the row theorem with arguments of ANY kind: a safe case yields a Clean Markup result whatever the
+   plain strings AND the non-string objects (containers, objects with __str__) carry *)
+Theorem row_case_clean_c : forall taints fl args ps,
+  flows_safe taints fl = true ->
+  map c_is_mk args = taints ->
+  Forall cMkClean args ->
+  Forall piece_ok ps ->
+  Clean (render_pieces_c args fl ps).
+Proof.
+  intros taints fl args ps Hs Ht Ha Hp. unfold render_pieces_c. apply Clean_concat.
+  induction Hp as [|p ps Hp Hps IH]; [constructor|]. cbn [map]. constructor; [|exact IH].
+  destruct p as [s|i tr]; cbn [render_piece_c]; [exact Hp|].
+  destruct (nth_error args i) as [a|] eqn:Ea; [|reflexivity].
+  assert (Hma : cMkClean a) by (apply (proj1 (Forall_forall _ _) Ha); eapply nth_error_In; exact Ea).
+  destruct (nth_error fl i) as [[| |]|] eqn:Ef; try reflexivity.
+  - apply Hp. now apply Clean_c_esc_str.
+  - apply Hp.
+    assert (Et : nth_error taints i = Some (c_is_mk a)) by (rewrite <- Ht; now apply map_nth_error).
+    pose proof (flows_safe_nth taints fl i (c_is_mk a) Hs Et Ef) as Hm.
+    destruct a as [[s|s]|t]; try discriminate Hm. exact Hma.
+Qed.
+
+(* string arguments are the special case *)
+Lemma render_pieces_c_str : forall args fl ps,
+  render_pieces_c (map CStr args) fl ps = render_pieces args fl ps.
+Proof.
+  intros args fl ps. unfold render_pieces_c, render_pieces. f_equal. apply map_ext. intros [s|i tr]; [reflexivity|].
+  cbn [render_piece_c render_piece]. rewrite nth_error_map. destruct (nth_error args i) as [a|]; reflexivity.
+Qed.
+
+(* an object copied raw into a Markup result leaks (the xmlattr change of seeded C15_b) *)
+Theorem row_case_carrier_raw_witness :
+  exists args ps, Forall cMkClean args /\ Forall piece_ok ps /\ map c_is_mk args = [false] /\
+    ~ Clean (render_pieces_c args [FlRaw] ps).
+Proof.
+  exists [CObj [91; 39; LT; 39; 93]], [FromArg 0 (fun s => s)]. split; [repeat constructor|].
+  split; [repeat constructor; intros s H; exact H|]. split; [reflexivity|]. cbn. unfold Clean. cbn. discriminate.
+Qed.
+
+(* a whole table (the one regenerated from the running jinja2, with string AND carrier rows) *)
+Theorem rows_table_clean : forall rows, row_safe rows = true ->
+  forall taints fl, In (taints, true, fl) rows ->
+  forall args ps, map c_is_mk args = taints -> Forall cMkClean args -> Forall piece_ok ps ->
+  Clean (render_pieces_c args fl ps).
+Proof.
+  intros rows H taints fl Hin args ps Ht Ha Hp. unfold row_safe in H.
+  pose proof (proj1 (forallb_forall _ _) H _ Hin) as Hc. cbn in Hc.
+  now apply (row_case_clean_c taints fl args ps).
+Qed.
